@@ -706,6 +706,8 @@ class ExpressionValue(Value):
         def term(value):
             if value.is_address():
                 return statements[value.int].code_pkg.address.int
+            if value.is_address_expression():
+                value = value.calculate_address_offset(statements)
             return -value.int if value.is_negative() else value.int
 
         left = term(self.left)
